@@ -69,7 +69,7 @@ CHECKS = {
   note="Races inside GDAL below the proxies, the GIL and memory visibility are outside the model. The controller serialises "
        "worker threads, so only interleavings at yield points (lock acquire/release, first dataset access, fit, apply, job end) are "
        "explored - which is all that matters when every shared access is under a lock, and that premise is checked per access."
-       ' Added from the seeded-change rounds: lock-set discipline (some one controlled lock held at every access to a file; locks the code creates during a run come from a factory), schedules on objects that already did a single-threaded call, a free-running stress leg (switch interval 1 us) for races between byte-codes. The lock-set check sees Python-level locks only. Since round 8: a pass-through probe counts the threads inside read / dataset_mask of the parameter dataset shared by the workers of ParamStats.stats (more than one at a time is a failing input); validate_threads is extracted and proved (never more than the processors). Round 9: compare on a 640 x 560 band (more than a megabyte) with the finer grid forced, 1 / 2 / 4 threads - the partition is a matter of max_block_mem alone. Round 10: 3 inputs found by a bug-hunting sub-agent on the unchanged code (harness/found/C04_demo*.py: GDAL block cache under pressure) are replayed by this check on every run; they are listed in known_findings.json by script name. Round 11: min / max of parameter bands with empty tiles inside the data window under 1 / 2 / 4 threads and under reversed / shuffled completion orders (a lazy executor). Round 12: two real workers ordered by events so that another block\'s fit() completes between a block\'s own fit() and apply() (the one model object is shared by all blocks), on images with blocks that hold no valid pixel, both processing grids; the assumption that a block's value is a function of the block alone is a named hypothesis (SharedModel.Stateless: stateless_compute_interleaving_independent, noting_model_schedule_dependent) tied to the source text: no method of the model classes other than __init__ stores into the shared object (src_C04_model_state).',
+       ' Added from the seeded-change rounds: lock-set discipline (some one controlled lock held at every access to a file; locks the code creates during a run come from a factory), schedules on objects that already did a single-threaded call, a free-running stress leg (switch interval 1 us) for races between byte-codes. The lock-set check sees Python-level locks only. Since round 8: a pass-through probe counts the threads inside read / dataset_mask of the parameter dataset shared by the workers of ParamStats.stats (more than one at a time is a failing input); validate_threads is extracted and proved (never more than the processors). Round 9: compare on a 640 x 560 band (more than a megabyte) with the finer grid forced, 1 / 2 / 4 threads - the partition is a matter of max_block_mem alone. Round 10: 3 inputs found by a bug-hunting sub-agent on the unchanged code (harness/found/C04_demo*.py: GDAL block cache under pressure) are replayed by this check on every run; they are listed in known_findings.json by script name. Round 11: min / max of parameter bands with empty tiles inside the data window under 1 / 2 / 4 threads and under reversed / shuffled completion orders (a lazy executor). Round 12: two real workers ordered by events so that another block\'s fit() completes between a block\'s own fit() and apply() (the one model object is shared by all blocks), on images with blocks that hold no valid pixel, both processing grids; the assumption that the value a block writes is a function of the block alone is a named hypothesis (SharedModel.Stateless: stateless_compute_interleaving_independent, noting_model_schedule_dependent) tied to the source text: no method of the model classes other than __init__ stores into the shared object (src_C04_model_state).',
   tech="Lean 4 proof about a scheduler state machine + trace validation of real threads under a controlled scheduler", ref='7 C04'),
  'C05': dict(
   text="Proof (Lean 4): overlap_for_kernel = ceil(k/2) = radius + 1; the kernel window of every pixel within one pixel of a "
